@@ -19,10 +19,23 @@ import (
 
 type detRand struct{ r *Rand }
 
+// Read is shared by every connection of a server through tls.Config.Rand (which
+// must be safe for concurrent use). One goroutine runs at a time under the
+// scheduler; the state is hidden from the race detector like the scheduler's own
+// instead of being locked, so that it adds no happens-before edge between
+// connections.
+//
+//go:norace
 func (d *detRand) Read(p []byte) (int, error) {
+	s := d.r.s
 	for i := range p {
-		p[i] = byte(d.r.U64())
+		s += 0x9e3779b97f4a7c15
+		z := s
+		z = (z ^ (z >> 30)) * 0xbf58476d1ce4e5b9
+		z = (z ^ (z >> 27)) * 0x94d049bb133111eb
+		p[i] = byte(z ^ (z >> 31))
 	}
+	d.r.s = s
 	return len(p), nil
 }
 
@@ -89,6 +102,12 @@ func (c *SimConn) s2cReady() bool { return len(c.Raw) > c.s2cRead || c.Closed > 
 
 func (c *SimConn) duplexRead(p []byte) (int, error) {
 	c.rt.K.Yield(c.task, "read")
+	// dmu orders the accesses of the server goroutine and of the scripted client
+	// goroutine to the queues they share (for the race detector: the scheduler's
+	// own hand-over is hidden from it on purpose); it links each connection with
+	// its own client only, so it adds no happens-before edge between connections
+	c.dmu.Lock()
+	defer c.dmu.Unlock()
 	c.Started = true
 	c.ops++
 	if c.Closed > 0 {
@@ -101,7 +120,9 @@ func (c *SimConn) duplexRead(p []byte) (int, error) {
 	if len(c.c2s) == 0 && !c.c2sClosed {
 		c.rec("read-wait", "")
 		c.Quiesce = append(c.Quiesce, len(c.Out))
+		c.dmu.Unlock()
 		c.rt.K.Block(c.task, "read-wait", c.c2sReady)
+		c.dmu.Lock()
 	}
 	if c.expired(c.rdl, "read") {
 		return 0, os.ErrDeadlineExceeded
@@ -138,6 +159,8 @@ type clientEnd struct {
 
 func (e *clientEnd) Write(p []byte) (int, error) {
 	e.c.rt.K.Yield(e.task, "cwrite")
+	e.c.dmu.Lock()
+	defer e.c.dmu.Unlock()
 	if e.c.Closed > 0 {
 		return 0, net.ErrClosed
 	}
@@ -148,8 +171,12 @@ func (e *clientEnd) Write(p []byte) (int, error) {
 
 func (e *clientEnd) Read(p []byte) (int, error) {
 	e.c.rt.K.Yield(e.task, "cread")
+	e.c.dmu.Lock()
+	defer e.c.dmu.Unlock()
 	if len(e.c.Raw) <= e.c.s2cRead && e.c.Closed == 0 {
+		e.c.dmu.Unlock()
 		e.c.rt.K.Block(e.task, "cread-wait", e.c.s2cReady)
+		e.c.dmu.Lock()
 	}
 	if len(e.c.Raw) <= e.c.s2cRead {
 		return 0, io.EOF
@@ -161,6 +188,8 @@ func (e *clientEnd) Read(p []byte) (int, error) {
 
 func (e *clientEnd) Close() error {
 	e.c.rt.K.Yield(e.task, "cclose")
+	e.c.dmu.Lock()
+	defer e.c.dmu.Unlock()
 	e.c.c2sClosed = true
 	return nil
 }
